@@ -1144,7 +1144,11 @@ where
             };
             Message::Missing(vec![missing_item])
         } else {
-            unreachable!("bpaf usage BUG: adjacent should start with a required argument");
+            // `check_invariants` reports this, but it cannot look inside a hidden group
+            return Err(Error(Message::GuardFailed(
+                None,
+                "bpaf usage BUG: adjacent should start with a required argument",
+            )));
         };
         let mut best_args = args.clone();
         let mut best_consumed = 0;
